@@ -13,7 +13,20 @@ package corr
 //                                             ticker channel delivers; packet times and report times are the
 //                                             configured clock's.  The model's clock is moved by skew there.
 //   write ssrc=<u32> seq=<u16> ts=<u32> len=<n> dt=<ns>   advance the clock by dt, then write one packet
+//                                             optional `hs=<u32>`: the SSRC in the packet's RTP header (default: the
+//                                             stream's).  "Packets written on the stream are counted": the stream is the
+//                                             writer the packet goes through (BindLocalStream's return value), whatever
+//                                             SSRC its header carries — the stream's own RTX / FEC SSRC (optional
+//                                             `rtx=` / `fec=` on bind fill StreamInfo.SSRCRetransmission /
+//                                             SSRCForwardErrorCorrection; that is how the NACK responder above resends),
+//                                             the SSRC of another bound stream, an unrelated one.  The unchanged code
+//                                             (sender_interceptor.go: the closure calls ITS stream's processRTP and never
+//                                             looks at header.SSRC) agrees, so the model ignores hs / rtx / fec.
 //   tick dt=<ns>                              advance the clock by dt, then deliver one tick
+//   step ns=<+-n>                             the clock configured with SenderNow is a WALL clock: from now on it reads n ns
+//                                             more (negative: less) than before — an NTP correction between two reports —
+//                                             while the ticker (monotonic) keeps its pace.  "The report instant is what the
+//                                             configured clock says": the model's clock moves by n, nothing else happens.
 //   unbind ssrc=<u32>                         UnbindLocalStream
 //   stale ssrc=<u32> k=<n> seq= ts= len= dt=  advance the clock by dt, then write one packet through a STALE handle: the
 //                                             RTPWriter returned by an earlier BindLocalStream of this SSRC whose stream
@@ -35,6 +48,7 @@ import (
 	"fmt"
 	"sort"
 	"sync"
+	"sync/atomic"
 	"testing"
 	"testing/synctest"
 	"time"
@@ -67,6 +81,7 @@ func c07Run(t *testing.T, ops []string, o *Out) {
 			pending []*rtcp.SenderReport
 			writers = map[uint32]interceptor.RTPWriter{}
 			retired = map[uint32][]interceptor.RTPWriter{} // handles of earlier bindings, per SSRC, oldest first
+			skew    atomic.Int64                           // configured clock minus bubble clock, ns (bind skew= and step ns=)
 		)
 		// every packet handed to the RTCP writer is the writer's (it may queue it): kept by pointer and re-rendered
 		// after every later op, before Close and after Close (retain_test.go)
@@ -104,12 +119,11 @@ func c07Run(t *testing.T, ops []string, o *Out) {
 			case name == "bind" && need("ssrc", "rate", "latest") && (m["latest"] == "0" || m["latest"] == "1"):
 				if icpt == nil {
 					latest = m["latest"]
-					var skew time.Duration
 					if need("skew") {
-						skew = time.Duration(atoi(m["skew"]))
+						skew.Add(int64(atoi(m["skew"])))
 					}
 					opts := []report.SenderOption{
-						report.SenderNow(func() time.Time { return time.Now().Add(skew) }),
+						report.SenderNow(func() time.Time { return time.Now().Add(time.Duration(skew.Load())) }),
 						report.SenderTicker(func(time.Duration) report.Ticker { return ticker }),
 					}
 					if latest == "1" {
@@ -144,7 +158,14 @@ func c07Run(t *testing.T, ops []string, o *Out) {
 				ssrc := uint32(atoi(m["ssrc"]))
 				// the chain hands ONE *StreamInfo to every member: what the sender interceptor reads from it (the clock rate,
 				// 0 = "not announced" included) must be what the caller wrote, and the caller's struct comes back unedited
-				info := &interceptor.StreamInfo{SSRC: ssrc, ClockRate: uint32(atoi(m["rate"]))}
+				info := &interceptor.StreamInfo{SSRC: ssrc, ClockRate: uint32(atoi(m["rate"])),
+					SSRCRetransmission: uint32(atoi(m["rtx"])), SSRCForwardErrorCorrection: uint32(atoi(m["fec"]))}
+				if need("rtx") {
+					info.PayloadTypeRetransmission = 97
+				}
+				if need("fec") {
+					info.PayloadTypeForwardErrorCorrection = 98
+				}
 				if w, ok := writers[ssrc]; ok {
 					retired[ssrc] = append(retired[ssrc], w) // the application may still hold (and use) the old handle
 				}
@@ -160,6 +181,9 @@ func c07Run(t *testing.T, ops []string, o *Out) {
 				}
 				c07Sleep(atoi(m["dt"]))
 				h := &rtp.Header{Version: 2, SequenceNumber: uint16(atoi(m["seq"])), Timestamp: uint32(atoi(m["ts"])), SSRC: uint32(atoi(m["ssrc"]))}
+				if need("hs") {
+					h.SSRC = uint32(atoi(m["hs"]))
+				}
 				payload := make([]byte, atoi(m["len"]))
 				if _, err := w.Write(h, payload, o.Attrs(interceptor.Attributes{})); err != nil && !errors.Is(err, errAmbWrite) {
 					panic(err)
@@ -179,6 +203,8 @@ func c07Run(t *testing.T, ops []string, o *Out) {
 					synctest.Wait()
 				}
 				flush()
+			case name == "step" && need("ns"):
+				skew.Add(int64(atoi(m["ns"])))
 			case name == "unbind" && need("ssrc"):
 				ssrc := uint32(atoi(m["ssrc"]))
 				if _, ok := writers[ssrc]; !ok {
@@ -198,6 +224,9 @@ func c07Run(t *testing.T, ops []string, o *Out) {
 				}
 				c07Sleep(atoi(m["dt"]))
 				h := &rtp.Header{Version: 2, SequenceNumber: uint16(atoi(m["seq"])), Timestamp: uint32(atoi(m["ts"])), SSRC: ssrc}
+				if need("hs") {
+					h.SSRC = uint32(atoi(m["hs"]))
+				}
 				if _, err := old[atoi(m["k"])%len(old)].Write(h, make([]byte, atoi(m["len"])), o.Attrs(interceptor.Attributes{})); err != nil && !errors.Is(err, errAmbWrite) {
 					panic(err)
 				}
@@ -256,11 +285,32 @@ func c07Gen(r *Rng, tier string, idx int) Case {
 
 func c07GenPlain(r *Rng, tier string, idx int) Case {
 	classes := []string{"inorder", "seqwrap", "ooo", "frames", "tswrap", "ts0first", "payload", "rates",
-		"multi", "tickfirst", "rebind", "longgap", "mixed", "stale", "writefail"}
+		"multi", "tickfirst", "rebind", "longgap", "mixed", "stale", "clockstep", "hdrssrc", "writefail"}
 	class := classes[idx%len(classes)]
 	cl := class
 	if cl == "writefail" { // traffic of one of the other classes over a transport that refuses some RTP writes
 		cl = classes[r.Intn(len(classes)-1)]
+	}
+	// class `clockstep` — "the report instant is what the configured clock says": SenderNow is a wall clock, and a wall
+	// clock is stepped (NTP correction, the user sets the time) between two reports while the ticker keeps its pace:
+	// back by more than the time since the last report, back by less, forward; before the first packet, between a packet
+	// and the report after it (the report instant may then lie BEFORE the newest packet's time), between two reports
+	// with no packet in between.  Traffic of any ordinary class.
+	stepping := cl == "clockstep"
+	if stepping {
+		cl = classes[r.Intn(len(classes)-3)]
+	}
+	stepOp := func() string {
+		return fmt.Sprintf("step ns=%d", r.Pick(-1, -1000000, -500000000, -999999999, -1000000000, -1000000001, -1500000000, -5000000000,
+			-60000000000, -3600000000000, -86400000000000, 1, 1000000, 999999999, 1000000000, 5000000000, 3600000000000, 86400000000000))
+	}
+	// class `hdrssrc` — "packets written on the stream are counted": the stream is the writer returned by
+	// BindLocalStream; what goes through it is counted (and is the timestamp reference) whatever SSRC its header
+	// carries: the stream's own retransmission SSRC (the NACK responder above resends RTX packets through the very same
+	// writer) or FEC SSRC, the SSRC (or RTX SSRC) of another bound stream, an unrelated one.
+	foreign := cl == "hdrssrc"
+	if foreign {
+		cl = []string{"multi", "multi", "mixed", "stale", "inorder", "ooo", "frames", "rebind"}[r.Intn(8)]
 	}
 	if idx%211 == 7 {
 		// counters beyond 2^32 octets: one long stream, reports before and after the wrap
@@ -292,11 +342,19 @@ func c07GenPlain(r *Rng, tier string, idx int) Case {
 	// CURRENT binding, so those packets change no report.  Their sequence numbers / timestamps lie before, inside and
 	// ahead of what the new binding sends.
 	hasStale := map[int]bool{}
+	var hsStale func(ssrc int) int // class hdrssrc: the header SSRC of a late packet through an old handle
 	staleOp := func(ssrc, seq, ts int) string {
-		return fmt.Sprintf("stale ssrc=%d k=%d seq=%d ts=%d len=%d dt=%d", ssrc, r.Intn(4), seq&0xFFFF, ts, r.Pick(0, 1, 100, 1200, 1460),
-			r.Pick(0, 0, 1, 999, 1000000, 20000000, 1000000000))
+		x := ""
+		if hsStale != nil && r.Chance(1, 3) {
+			x = fmt.Sprintf(" hs=%d", hsStale(ssrc))
+		}
+		return fmt.Sprintf("stale ssrc=%d k=%d seq=%d ts=%d len=%d dt=%d%s", ssrc, r.Intn(4), seq&0xFFFF, ts, r.Pick(0, 1, 100, 1200, 1460),
+			r.Pick(0, 0, 1, 999, 1000000, 20000000, 1000000000), x)
 	}
-	type st struct{ ssrc, rate, seq, ts, tsStep int }
+	if foreign && nstreams < 2 && r.Chance(2, 3) {
+		nstreams = r.Range(2, 3)
+	}
+	type st struct{ ssrc, rate, seq, ts, tsStep, rtx, fec, rtxSeq int }
 	streams := []*st{}
 	for i := 0; i < nstreams; i++ {
 		s := &st{ssrc: r.Pick(1, 2, 3, 0, 4294967295, 123456) + i*7, rate: rates[r.Intn(len(rates))], seq: r.Intn(65536), ts: int(r.U64() % (1 << 32))}
@@ -319,7 +377,46 @@ func c07GenPlain(r *Rng, tier string, idx int) Case {
 				s.tsStep = r.Pick(0, 3000)
 			}
 		}
+		if foreign {
+			if r.Chance(3, 4) {
+				s.rtx = (s.ssrc + r.Pick(1, 1000, 2147483648) + i) & 0xFFFFFFFF
+			}
+			if r.Chance(1, 2) {
+				s.fec = (s.ssrc + r.Pick(2, 2000, 3000000000) + i) & 0xFFFFFFFF
+			}
+			s.rtxSeq = r.Intn(65536)
+		}
 		streams = append(streams, s)
+	}
+	// what StreamInfo says beside SSRC and clock rate
+	bindExtra := func(s *st) string {
+		x := ""
+		if s.rtx != 0 {
+			x += fmt.Sprintf(" rtx=%d", s.rtx)
+		}
+		if s.fec != 0 {
+			x += fmt.Sprintf(" fec=%d", s.fec)
+		}
+		return x
+	}
+	// a header SSRC that is not the stream's
+	hsPick := func(s *st) int {
+		o := streams[r.Intn(len(streams))]
+		c := []int{s.rtx, s.rtx, s.rtx, s.fec, o.ssrc, o.ssrc, o.rtx, o.fec, r.Pick(0, 4294967295, 555555, s.ssrc^1, s.ssrc^0x80000000)}
+		if v := c[r.Intn(len(c))]; v != 0 || r.Chance(1, 8) {
+			return v
+		}
+		return o.ssrc
+	}
+	if foreign {
+		hsStale = func(ssrc int) int {
+			for _, s := range streams {
+				if s.ssrc == ssrc {
+					return hsPick(s)
+				}
+			}
+			return ssrc
+		}
 	}
 	if cl == "tickfirst" {
 		for i := r.Range(1, 3); i > 0; i-- {
@@ -329,12 +426,15 @@ func c07GenPlain(r *Rng, tier string, idx int) Case {
 	for i, s := range streams {
 		if i == 0 && r.Chance(1, 4) {
 			// a configured clock that is not the ticker's: a millisecond to decades, both signs (inside NTP era 0)
-			ops = append(ops, fmt.Sprintf("bind ssrc=%d rate=%d latest=%d skew=%d", s.ssrc, s.rate, latest, r.Pick(1000000, -1000000,
+			ops = append(ops, fmt.Sprintf("bind ssrc=%d rate=%d latest=%d skew=%d%s", s.ssrc, s.rate, latest, r.Pick(1000000, -1000000,
 				999999999, -1000000000, 3600000000000, -86400000000000, 315576000000000000, -315576000000000000,
-				1104537600000000000, -2900000000000000000)))
+				1104537600000000000, -2900000000000000000), bindExtra(s)))
 			continue
 		}
-		ops = append(ops, fmt.Sprintf("bind ssrc=%d rate=%d latest=%d", s.ssrc, s.rate, latest))
+		if stepping && r.Chance(1, 4) {
+			ops = append(ops, stepOp()) // before the interceptor exists / before the stream is bound
+		}
+		ops = append(ops, fmt.Sprintf("bind ssrc=%d rate=%d latest=%d%s", s.ssrc, s.rate, latest, bindExtra(s)))
 		if cl == "tickfirst" && r.Bool() {
 			ops = append(ops, fmt.Sprintf("tick dt=%d", dts[r.Intn(len(dts))]))
 		}
@@ -365,7 +465,23 @@ func c07GenPlain(r *Rng, tier string, idx int) Case {
 			s.ts = (s.ts + s.tsStep) % (1 << 32)
 			seq, ts = s.seq, s.ts
 		}
-		ops = append(ops, fmt.Sprintf("write ssrc=%d seq=%d ts=%d len=%d dt=%d", s.ssrc, seq, ts, ln, dt))
+		w := fmt.Sprintf("write ssrc=%d seq=%d ts=%d len=%d dt=%d", s.ssrc, seq, ts, ln, dt)
+		if foreign && r.Chance(1, 4) {
+			w += fmt.Sprintf(" hs=%d", hsPick(s))
+		}
+		ops = append(ops, w)
+		if foreign && r.Chance(1, 3) {
+			// resends / repair packets as a NACK responder or FEC encoder above hands them to this writer: their own SSRC and
+			// numbering, the timestamp of an earlier (or the newest) packet, two bytes more (the original sequence number)
+			for k := r.Pick(1, 1, 2, 3); k > 0; k-- {
+				s.rtxSeq = (s.rtxSeq + 1) % 65536
+				ops = append(ops, fmt.Sprintf("write ssrc=%d seq=%d ts=%d len=%d dt=%d hs=%d", s.ssrc, s.rtxSeq,
+					(s.ts+(1<<32)-r.Pick(0, 1, 2, 5)*s.tsStep%(1<<32))%(1<<32), ln+2, r.Pick(0, 0, 1000, 1000000, 20000000), hsPick(s)))
+			}
+		}
+		if stepping && r.Chance(1, 5) {
+			ops = append(ops, stepOp()) // between a packet and the next packet / report
+		}
 		if hasStale[s.ssrc] && (cl == "stale" || r.Chance(1, 3)) {
 			for k := r.Pick(0, 1, 1, 2, 3); k > 0; k-- {
 				// the late packet continues the OLD numbering (anything), or would be the next / an older / a far
@@ -376,6 +492,10 @@ func c07GenPlain(r *Rng, tier string, idx int) Case {
 		}
 		if r.Chance(1, 4) {
 			ops = append(ops, fmt.Sprintf("tick dt=%d", dts[r.Intn(len(dts))]))
+			if stepping && r.Chance(1, 2) {
+				// two successive reports of the same loop with a step between them and nothing else
+				ops = append(ops, stepOp(), fmt.Sprintf("tick dt=%d", dts[r.Intn(len(dts))]))
+			}
 		}
 		if (cl == "rebind" && r.Chance(1, 8)) || (cl == "stale" && r.Chance(1, 4)) || (cl == "mixed" && r.Chance(1, 16)) {
 			if r.Bool() {
@@ -388,7 +508,7 @@ func c07GenPlain(r *Rng, tier string, idx int) Case {
 			if cl == "stale" && r.Chance(2, 3) {
 				rate = s.rate
 			}
-			ops = append(ops, fmt.Sprintf("bind ssrc=%d rate=%d latest=%d", s.ssrc, rate, latest))
+			ops = append(ops, fmt.Sprintf("bind ssrc=%d rate=%d latest=%d%s", s.ssrc, rate, latest, bindExtra(s)))
 			hasStale[s.ssrc] = true
 			if cl == "stale" {
 				// late packets before the new binding has sent anything (its first packet is still to come)
@@ -405,6 +525,9 @@ func c07GenPlain(r *Rng, tier string, idx int) Case {
 		}
 	}
 	ops = append(ops, fmt.Sprintf("tick dt=%d", dts[r.Intn(len(dts))]))
+	if stepping {
+		ops = append(ops, stepOp(), fmt.Sprintf("tick dt=%d", dts[r.Intn(len(dts))]))
+	}
 	return Case{Class: class, Ops: ops}
 }
 
